@@ -1,7 +1,7 @@
 /-
 Model/Fits.lean — FITS output / input (property C16).
 
-Python sources transliterated here (tree with the repairs D12, D13, D30 applied):
+Python sources transliterated here (tree with the repairs D12, D13, D30, D31 applied):
   autoarray/structures/arrays/array_2d_util.py   hdu_for_output_from, numpy_array_2d_to_fits,
                                                  numpy_array_2d_via_fits_from, header_obj_from
   autoarray/structures/arrays/array_1d_util.py   hdu_for_output_from, numpy_array_1d_to_fits,
@@ -105,10 +105,11 @@ def array2dHduStored [DecidableEq α] (flip : Bool) (m : Mask) (st : Impl.Stored
     hduForOutput2d flip rows (pixelScaleHeader [scales.1, scales.2] zero)
 
 /-- `Array1D.hdu_for_output` of a NATIVE-stored 1-D array holding `v`: `.native` is
-    `Array1D(values=self, mask, store_native=True)` and `convert_array_1d` returns a native input as it
-    is — unlike the 2-D constructor it does not re-apply the mask (known finding D31). -/
-def array1dHduNativeStored [DecidableEq α] (v : List α) (scale : α) (zero : α) : Hdu α :=
-  hduForOutput1d v (pixelScaleHeader [scale] zero)
+    `Array1D(values=self, mask, store_native=True)` and `convert_array_1d` (after repair D31) multiplies a
+    native input by the inverted mask, so whatever `v` holds under the mask is written as zero — the
+    1-D twin of `array2dHduStored`. -/
+def array1dHduNativeStored [DecidableEq α] (mask : List Bool) (v : List α) (scale : α) (zero : α) : Hdu α :=
+  hduForOutput1d (Impl.applyMask1d mask v zero) (pixelScaleHeader [scale] zero)
 
 /-- `self.astype("float")` of a boolean mask -/
 def boolToNum (zero one : α) (b : Bool) : α := if b then one else zero
